@@ -229,9 +229,10 @@ fn build(prop: &str, tier: &str) -> Load {
             pairs.extend(nat.into_iter().take(if thorough { 300 } else { 64 }).map(|t| t.bytes));
             strata.push(Stratum::Tokens { ext, toks: pairs, depth: 2 });
         }
-        strata.push(Stratum::Equations(psf2_equation_cases()));
         strata.push(Stratum::Names(vec!["noext".into(), "x.".into(), ".ans".into(), "dir.d/name".into(), "".into(), "x.ANS".into(), "x.tar.xb".into(), "\u{fc}.\u{fc}".into(), "x.an0".into(), "x.an10".into()]));
     }
+    // both for C02 (no panic) and for C03 (cost): header fields that solve the loader's own length equation
+    strata.push(Stratum::Equations(psf2_equation_cases()));
     let mut out = Vec::new();
     let mut total = 0u64;
     for s in strata {
